@@ -170,10 +170,7 @@ class SLE(Equilibrium, phases='ls'):
             chemicals = self.chemicals
             # Set up indices for both equilibrium and non-equilibrium species
             index = chemicals.get_lle_indices(nonzero)   
-            N = len(index)
-            if N == 1:
-                self._chemical = chemicals.tuple[solute_index]
-            else:
+            if len(index) > 1:
                 # Set equilibrium objects
                 eq_chems = chemicals.tuple
                 eq_chems = [eq_chems[i] for i in index]
@@ -181,7 +178,14 @@ class SLE(Equilibrium, phases='ls'):
                 self._index = index
                 thermo = self._thermo
                 self._gamma = thermo.Gamma(eq_chems)
-                self._solute_gamma_index = self._index.index(solute_index)
+        # Whether the solute is alone, and where it sits among the chemicals in 
+        # equilibrium, depends on this call's solute and flows
+        if len(index) == 1:
+            self._chemical = self.chemicals.tuple[solute_index]
+            self._solute_gamma_index = None
+        else:
+            self._chemical = None
+            self._solute_gamma_index = index.index(solute_index)
         
     def __call__(self, solute, T=None, P=None, H=None, solubility=None):
         """
